@@ -107,6 +107,20 @@ def rich_world(seed, n_chroms=6, genes_per_chrom=3, groups=3, multimappers=True,
                                                mapq=rng.choice((0, 1, 60)))
                     if r is not None:
                         r.truth["multimap"] = True
+    if multimappers:
+        fam = [g for g in w.genes if g.id == "G1_1" or g.id.startswith("P")]
+        if len(fam) >= 2:
+            # ties: no alignment is primary, all are equally good -> the read stays on several loci
+            for k in range(8):
+                name = "tie%04d" % k
+                ti = rng.randrange(len(fam[0].transcripts))
+                order = list(fam)
+                rng.shuffle(order)
+                for j, g in enumerate(order[:2]):
+                    r = w.read_from_transcript(g.transcripts[ti], mode="full", name=name, flag=256 | rng.choice((0, 16)), mapq=0)
+                    if r is not None:
+                        r.truth["multimap"] = True
+                        r.truth["tie"] = True
     for k in range(unmapped):
         from vlib.world import Read
         w.reads.append(Read("unm%03d" % k, None, -1, [], "ACGTACGTACGTACGT", flag=4, mapq=0, truth={"unmapped": True}))
